@@ -152,6 +152,13 @@ def cases(tier, seed):
                 continue
             for comp in completions(status, depth):
                 yield {'G': G, 'sched': list(seq + comp), 'modes': 'mixed2'}
+    # ---- a generator of SMALL chunks with element writes just ahead of it (into rows it has not yielded yet): every chunk
+    #      must show the array as it is when the chunk is returned, whatever the generator may have read in advance
+    for cl in (1, 7, 1000, 30_000, 100_000):
+        for offs in ([0], [1, cl - 1 if cl > 1 else 2], [cl, 3 * cl + 1], [50_000], [120_000, 131_071, 131_072], [262_144, 400_000]):
+            for second in (False, True):
+                yield {'G': 1 + second, 'sched': [f'lookahead cl={cl} ahead={offs} second_generator={second}'],
+                       'lookahead': {'chunklen': cl, 'offsets': offs, 'second': second}}
     if tier == 'thorough':
         rng = random.Random(f'C19:{seed}')
         for k in range(20000):
@@ -272,10 +279,55 @@ def execute(env, sched, modes=None):
     return {'problems': problems, 'nchunks': nchunks, 'reach': sorted(env.reach)}
 
 
+def execute_lookahead(env, spec):
+    D = env.darr
+    path = _arr['path']
+    model = np.fromfile(path / 'arrayvalues.bin', dtype='<f8')
+    a = D.Array(path, accessmode='r+')
+    cl, problems, nchunks = spec['chunklen'], [], 0
+    g = a.iterchunks(cl)
+    g2 = a.iterchunks(50_000, stepsize=20_000) if spec['second'] else None
+    pos = 0
+    for k in range(min(40, N // cl)):
+        chunk = next(g)
+        nchunks += 1
+        if chunk.shape != (cl,) or not np.array_equal(chunk, model[pos:pos + cl]):
+            bad = int(np.argmax(chunk != model[pos:pos + cl])) if chunk.shape == (cl,) else -1
+            problems.append(f'advance {k}: chunk [{pos}:{pos + cl}] differs from the array contents at that moment '
+                            f'(first differing offset {bad}: chunk has {chunk[bad] if bad >= 0 else None}, array {model[pos + bad]})')
+            break
+        pos += cl
+        if g2 is not None and k % 3 == 0:
+            c2 = next(g2)
+            s2 = (k // 3) * 20_000
+            nchunks += 1
+            if not np.array_equal(c2, model[s2:s2 + 50_000]):
+                problems.append(f'advance {k}: chunk [{s2}:{s2 + 50_000}] of the second generator differs from the array contents')
+                break
+        for off in spec['offsets']:
+            i = pos + off
+            if i < N:
+                val = float(-(k * 1000 + off) - 0.5)
+                a[i] = val
+                model[i] = val
+    g.close()
+    if g2 is not None:
+        g2.close()
+    leaks = fdmap(path)
+    if leaks:
+        problems.append(f'LEAK after all generators and contexts finished: {leaks}')
+    if not np.array_equal(np.fromfile(path / 'arrayvalues.bin', dtype='<f8'), model):
+        problems.append('LOSTWRITE: final contents (raw file) differ from the model')
+    return {'problems': problems, 'nchunks': nchunks, 'reach': sorted(env.reach)}
+
+
 def run_case(case, env):
     res = Result()
     sched = case['sched']
-    info = run_forked(lambda: execute(env, sched, case.get('modes')), timeout=120, faultlog_dir=str(env.scratch.root))
+    if case.get('lookahead'):
+        info = run_forked(lambda: execute_lookahead(env, case['lookahead']), timeout=120, faultlog_dir=str(env.scratch.root))
+    else:
+        info = run_forked(lambda: execute(env, sched, case.get('modes')), timeout=120, faultlog_dir=str(env.scratch.root))
     res.count('mon.child_status')
     res.count(f'child.{info["status"]}')
     res.dim('schedule_length', len(sched))
@@ -299,7 +351,7 @@ def run_case(case, env):
             kind = 'fd-or-map-leak' if p.startswith('LEAK') else 'lost-write' if p.startswith('LOSTWRITE') \
                 else 'wrong-value'
             res.fail(kind, f'schedule {" ".join(sched)}: {p}', schedule=sched)
-    res.nontrivial = overlap(sched)
+    res.nontrivial = True if case.get('lookahead') else overlap(sched)
     res.sig = ' '.join(sched) + (f' /{case["modes"]}' if case.get('modes') else '')
     res.dim('access_modes', case.get('modes') or 'all r+')
     return res
